@@ -370,7 +370,9 @@ Next ==
   \/ TxLocalFail
   \/ TxLocalDone
   \/ \E e \in Execs : TxNext(e)
-  \/ TxCommit \/ TxRollback \/ TxReject
+  \/ TxCommit
+  \/ TxRollback
+  \/ TxReject
   \/ EndBlock
 
 Spec == Init /\ [][Next]_vars
